@@ -46,10 +46,10 @@ TConcAddRows == /\ IsEvent("ConcAddRows")
                    /\ w' = [w EXCEPT ![p].rows = @ \o [j \in 1..n |-> RowOf(items[CHOOSE i \in DOMAIN items : items[i][1] = base + j - 1][2])]]
                    /\ resp' = [kind |-> "addrow", id |-> base + n - 1]
                 /\ UNCHANGED <<files, ix, qobj, hid, dictOK>>
-TFlush == IsEvent("Flush") /\ Flush(Ev.p) /\ resp'.ok = Ev.ok /\ HashOK(Ev.p) /\ UNCHANGED dictOK
+TFlush == IsEvent("Flush") /\ ~Ev.hang /\ Flush(Ev.p) /\ resp'.ok = Ev.ok /\ HashOK(Ev.p) /\ UNCHANGED dictOK   \* returns (ok or error), never hangs
 \* another writer's Flush to the same path while this path's writer is in the middle of its own Flush: the path
 \* exists by then (exclusive creation), so the other Flush must fail and change nothing
-TFlushOverlap == IsEvent("FlushOverlap") /\ w[Ev.p].kind # "none" /\ ~w[Ev.p].done /\ Ev.ok = FALSE /\ UNCHANGED <<vars, hid, dictOK>>
+TFlushOverlap == IsEvent("FlushOverlap") /\ w[Ev.p].kind # "none" /\ ~w[Ev.p].done /\ Ev.ok = FALSE /\ ~Ev.hang /\ UNCHANGED <<vars, hid, dictOK>>
 TOpen == IsEvent("Open") /\ Open(Ev.p, Ev.mode) /\ resp'.ok = Ev.ok /\ HashOK(Ev.p) /\ UNCHANGED dictOK
 TClose == IsEvent("Close") /\ Close(Ev.p) /\ HashOK(Ev.p) /\ UNCHANGED dictOK
 TSchema == /\ IsEvent("Schema") /\ GetSchema(Ev.p) /\ SchemaSeqOf(resp'.schema) = Ev.cols
